@@ -39,6 +39,8 @@ func init() {
 				Witnesses: []string{"row-decoded", "null-field", "bad-row", "trailer", "split-at-boundary", "split-inside-tuple", "empty-chunk"}},
 			{Pkg: "wire", Entry: "VerifH14r", What: "three tuples whose rows the handler keeps until the stream has ended: each kept row still is the row decoded for it (values and a NULL in between)",
 				Quick: map[string]int{}, Witnesses: []string{"rows-kept-until-the-end-of-the-stream", "a-null-between-two-values"}},
+			{Pkg: "wire", Entry: "VerifH14t", What: "each value per its column type AS THIS CONNECTION'S type map defines it: two connections that registered different codecs under one object id on their own maps each get their COPY value decoded by their own codec",
+				Quick: map[string]int{}, Witnesses: []string{"same-object-id-registered-differently-on-two-connections"}},
 			{Pkg: "wire", Entry: "VerifH14q", What: "the stream starts with the first CopyData message: surplus bytes after the last field of the Query or Execute message that starts the COPY are not part of it — the row reader returns exactly the tuple the client encoded",
 				Quick: map[string]int{"S": 3}, Witnesses: []string{"surplus-after-the-last-field-of-the-starting-message", "copy-started-by-execute"}},
 			{Pkg: "wire", Entry: "VerifH14", What: "splits anywhere in the stream, also inside the 19-byte header",
